@@ -176,6 +176,10 @@ impl StorageFilterResult {
 //@spec
         ensures r == (*self is Admit), // @label only_admit_is_admitted
 //@end
+//@fn foyer-storage/src/filter.rs :: impl~^impl StorageFilterResult$/fn is_rejected ret=r
+//@spec
+        ensures r == (*self is Reject), // @label only_reject_is_rejected
+//@end
 }
 pub struct KeeperT { pub held: Ghost<Seq<PieceT>>, pub lookup: Ghost<Map<(u64, KeyT), PieceT>> }
 impl KeeperT {
